@@ -111,7 +111,7 @@ def run_case(case):
     traces = set()
     first = None
     ntrans = 0
-    for prefix, ch, res in explore(lambda c: run_exec(sysdef, c), bounds, max_execs=6000 if case["tier"] == "quick" else 40000):
+    for prefix, ch, res in explore(lambda c: run_exec(sysdef, c), bounds, stats=stats, max_execs=6000 if case["tier"] == "quick" else 40000):
         evals += 1
         ntrans += len(ch.trace)
         stats["executions"] += 1
